@@ -30,6 +30,7 @@ func runC01(c *Ctx, r *Run) {
 	r.Rule("LAG-3", "the session's group key is the sum over the session's parties of the scaled public shares")
 	r.Rule("FH-1", "hash-to-scalar: excess bits from the converted slice; one conversion function on every ECDSA path")
 	r.Rule("SPEC-F", "FROST-Taproot: BIP-340 challenge fields and the even-Y negation sets")
+	r.Rule("ALIAS-S", "signing never rewrites stored key material or presignatures: in-place scalar operations only on fresh objects")
 	r.Rule("RG-1", "content RoundNumber() equals the consuming round's Number()")
 	r.Rule("RG-2", "every start function's FinalRoundNumber admits every round reachable from its first round")
 
@@ -38,6 +39,46 @@ func runC01(c *Ctx, r *Run) {
 	checkFromHash(c, r)
 	checkFrostTaproot(c, r)
 	checkRoundWindow(c, r)
+
+	// ALIAS-S: signing reads long-lived material (configurations, presignatures) and must not rewrite it in place:
+	// the scalars' Add/Mul/Negate/... mutate their receiver, so each such call must act on an object created in the
+	// function (or on round state whose every origin is fresh)
+	{
+		var fns []*ssa.Function
+		for _, k := range []struct{ rel, name string }{{"pkg/ecdsa", "PreSignature"}, {"pkg/ecdsa", "Signature"}, {"protocols/cmp/config", "Config"},
+			{"protocols/frost/keygen", "Config"}, {"protocols/frost/keygen", "TaprootConfig"}, {"protocols/doerner/keygen", "ConfigReceiver"}, {"protocols/doerner/keygen", "ConfigSender"}} {
+			T := c.LookupNamed(k.rel, k.name)
+			if T == nil {
+				r.Unresolved("ALIAS-S", k.rel+"."+k.name)
+				continue
+			}
+			for i := 0; i < T.NumMethods(); i++ {
+				if fn := c.Prog.FuncValue(T.Method(i)); fn != nil && len(fn.Blocks) > 0 && T.Method(i).Name() != "SigEthereum" {
+					fns = append(fns, fn)
+				}
+			}
+		}
+		for _, ri := range getRoundModel(c).rounds {
+			if !strings.Contains(ri.rel, "sign") {
+				continue
+			}
+			for _, mn := range []string{"Finalize", "StoreMessage", "StoreBroadcastMessage", "VerifyMessage"} {
+				if f := ri.methods[mn]; f != nil {
+					fns = append(fns, f)
+				}
+			}
+		}
+		for _, sf := range startFuncs(c) {
+			if strings.Contains(c.FuncName(sf), "sign") {
+				fns = append(fns, sf)
+			}
+		}
+		sort.Slice(fns, func(i, j int) bool { return c.FuncName(fns[i]) < c.FuncName(fns[j]) })
+		for _, f := range fns {
+			r.Analysed(c.FuncName(f))
+		}
+		checkAlias(c, r, "ALIAS-S", fns)
+	}
 
 	r.Require("OB-R1", 6)
 	r.Require("LAG-1", 3)
